@@ -1,5 +1,6 @@
 # Licensed under a 3-clause BSD style license - see LICENSE.rst
 
+import os
 import warnings
 from dataclasses import dataclass
 
@@ -57,6 +58,12 @@ def _write_fits(regions, filename, header=None, overwrite=False):
         If True, overwrite the output file if it exists. Raises an
         `OSError` if False and the output file exists. Default is False.
     """
+    # as for the other formats, an existing destination (of any size,
+    # astropy itself lets an empty file be overwritten) is never
+    # clobbered without ``overwrite=True``
+    if os.path.lexists(filename) and not overwrite:
+        raise OSError(f'{filename} already exists')
+
     output = _serialize_fits(regions)
 
     if header is None:
